@@ -149,4 +149,257 @@ theorem value_bopomofo_String_static :
 
 end Values
 
+/-! ## 2. purity at the C level -/
+
+/-- the getters that do not read the getter-only slots: every plain getter, the mode getters, `string_by_index(_static)` -/
+def Getter.blind : Getter → Bool
+  | .plain _ => true
+  | .mode _ => true
+  | .candStringByIndex _ => true
+  | .candStringByIndexStatic _ => true
+  | _ => false
+
+def GCall.blind : GCall → Bool
+  | .op _ => true
+  | .get q => Getter.blind q
+
+/-- the modelled calls of a history / their return values among the results -/
+def strip : List GCall → List COp
+  | [] => []
+  | .op o :: cs => o :: strip cs
+  | .get _ :: cs => strip cs
+
+def rcsOf : List GRes → List Int
+  | [] => []
+  | .rc r :: rs => r :: rcsOf rs
+  | .val _ :: rs => rcsOf rs
+
+/-- a slot-blind getter hands out the same value whatever the slots hold -/
+theorem getOn_blind (f : GFacts) {q : Getter} (hb : Getter.blind q = true) {s s' : GSlots} {v : GVal}
+    (h : getOn f s q = .ok (s', v)) (s2 : GSlots) : ∃ s2', getOn f s2 q = .ok (s2', v) := by
+  cases q with
+  | plain fn =>
+    simp only [getOn] at h ⊢
+    cases hr : getterRow fn with
+    | none => rw [hr] at h; cases h
+    | some row =>
+      obtain ⟨m, conv, arg, n⟩ := row
+      rw [hr] at h
+      simp only at h ⊢
+      cases hv : getValue f m conv arg with
+      | ok r =>
+        rw [hv] at h
+        simp only [Outcome.map, Outcome.ok.injEq, Prod.mk.injEq] at h ⊢
+        exact ⟨_, rfl, h.2⟩
+      | panic p => rw [hv] at h; cases h
+      | outOfFuel => rw [hv] at h; cases h
+  | mode fn =>
+    simp only [getOn, Outcome.ok.injEq, Prod.mk.injEq] at h ⊢
+    exact ⟨_, rfl, h.2⟩
+  | candStringByIndex i =>
+    cases hlk : (f.allCandidates.getD [])[indexOfInt i]? with
+    | none =>
+      simp only [getOn, hlk, Outcome.ok.injEq, Prod.mk.injEq] at h ⊢
+      exact ⟨s2, rfl, h.2⟩
+    | some t =>
+      cases hh : heapCstr (utf8Encode t) with
+      | none => simp only [getOn, hlk, hh] at h; cases h
+      | some b =>
+        simp only [getOn, hlk, hh, Outcome.ok.injEq, Prod.mk.injEq] at h ⊢
+        exact ⟨s2, rfl, h.2⟩
+  | candStringByIndexStatic i =>
+    cases hlk : (f.allCandidates.getD [])[indexOfInt i]? with
+    | none =>
+      simp only [getOn, hlk, Outcome.ok.injEq, Prod.mk.injEq] at h ⊢
+      exact ⟨s2, rfl, h.2⟩
+    | some t =>
+      simp only [getOn, hlk, Outcome.ok.injEq, Prod.mk.injEq] at h ⊢
+      exact ⟨_, rfl, h.2⟩
+  | candEnumerate => cases hb
+  | candHasNext => cases hb
+  | candString => cases hb
+  | candStringStatic => cases hb
+  | intervalEnumerate => cases hb
+  | intervalHasNext => cases hb
+  | intervalGet => cases hb
+
+section Purity
+variable {D L : Type} (env : Env D L) (bopo : L → Text)
+
+/-- a getter call, spelled out -/
+theorem get_ok {g g' : GCtx D L} {q : Getter} {v : GVal} (h : g.get env bopo q = .ok (g', v)) :
+    ∃ f s', GFacts.ofEditor env bopo g.ctx.editor = .ok f ∧ getOn f g.slots q = .ok (s', v) ∧
+      g' = { g with slots := s' } := by
+  unfold GCtx.get at h
+  cases hf : GFacts.ofEditor env bopo g.ctx.editor with
+  | ok f =>
+    rw [hf] at h
+    simp only at h
+    cases hg : getOn f g.slots q with
+    | ok r =>
+      rw [hg] at h
+      simp only [Outcome.map, Outcome.ok.injEq, Prod.mk.injEq] at h
+      exact ⟨f, r.1, rfl, by rw [← h.2]; exact hg, h.1.symm⟩
+    | panic p => rw [hg] at h; cases h
+    | outOfFuel => rw [hg] at h; cases h
+  | panic p => rw [hf] at h; cases h
+  | outOfFuel => rw [hf] at h; cases h
+
+/-- **no getter call changes the context of the modelled calls**: the editor (state, buffers, options, dictionary),
+    the selection keys, the keyboard.  A getter writes the getter-only slots at most. -/
+theorem get_keeps_ctx {g g' : GCtx D L} {q : Getter} {v : GVal} (h : g.get env bopo q = .ok (g', v)) :
+    g'.ctx = g.ctx := by
+  obtain ⟨f, s', _, _, rfl⟩ := get_ok env bopo h
+  rfl
+
+/-- a slot-blind getter answers from the context of the modelled calls alone -/
+theorem get_sim {g1 g2 g1' : GCtx D L} (hs : g1.ctx = g2.ctx) {q : Getter} (hb : Getter.blind q = true) {v : GVal}
+    (h : g1.get env bopo q = .ok (g1', v)) : ∃ g2', g2.get env bopo q = .ok (g2', v) ∧ g2'.ctx = g2.ctx := by
+  obtain ⟨f, s', hf, hg, rfl⟩ := get_ok env bopo h
+  obtain ⟨s2', h2⟩ := getOn_blind f hb hg g2.slots
+  refine ⟨{ g2 with slots := s2' }, ?_, rfl⟩
+  unfold GCtx.get
+  rw [← hs, hf]
+  simp only [h2, Outcome.map]
+
+/-- **repeating a getter gives an equal value** (slot-blind getters; the enumeration protocol is stateful by design) -/
+theorem repeat_getter {g g' : GCtx D L} {q : Getter} (hb : Getter.blind q = true) {v : GVal}
+    (h : g.get env bopo q = .ok (g', v)) : ∃ g'', g'.get env bopo q = .ok (g'', v) ∧ g''.ctx = g.ctx := by
+  obtain ⟨g'', h2, hc⟩ := get_sim env bopo (get_keeps_ctx env bopo h).symm hb h
+  exact ⟨g'', h2, by rw [hc, get_keeps_ctx env bopo h]⟩
+
+/-- one call of a history of modelled calls and slot-blind getters: same result from contexts that differ in the
+    getter-only slots only -/
+theorem blind_step_sim {g1 g2 g1' : GCtx D L} (hs : g1.ctx = g2.ctx) {c : GCall} (hb : GCall.blind c = true) {r : GRes}
+    (h : g1.step env bopo c = .ok (g1', r)) : ∃ g2', g2.step env bopo c = .ok (g2', r) ∧ g1'.ctx = g2'.ctx := by
+  cases c with
+  | op o =>
+    simp only [GCtx.step] at h ⊢
+    rw [← hs]
+    cases ha : g1.ctx.apply env o with
+    | ok x =>
+      rw [ha] at h
+      simp only [Outcome.map, Outcome.ok.injEq, Prod.mk.injEq] at h
+      refine ⟨{ g2 with ctx := x.1 }, ?_, by rw [← h.1]⟩
+      simp only [Outcome.map, ← h.2]
+    | panic p => rw [ha] at h; cases h
+    | outOfFuel => rw [ha] at h; cases h
+  | get q =>
+    simp only [GCtx.step] at h ⊢
+    cases hg : g1.get env bopo q with
+    | ok x =>
+      obtain ⟨gx, v⟩ := x
+      rw [hg] at h
+      simp only [Outcome.map, Outcome.ok.injEq, Prod.mk.injEq] at h
+      obtain ⟨g2', h2, hc⟩ := get_sim env bopo hs hb hg
+      refine ⟨g2', ?_, ?_⟩
+      · rw [h2]; simp only [Outcome.map, h.2]
+      · rw [← h.1, get_keeps_ctx env bopo hg, hc, hs]
+    | panic p => rw [hg] at h; cases h
+    | outOfFuel => rw [hg] at h; cases h
+
+/-- … and so for whole histories -/
+theorem blind_run_sim (cs : List GCall) (hb : ∀ c ∈ cs, GCall.blind c = true) :
+    ∀ (g1 g2 g1' : GCtx D L) (rs : List GRes), g1.ctx = g2.ctx → g1.run env bopo cs = .ok (g1', rs) →
+      ∃ g2', g2.run env bopo cs = .ok (g2', rs) ∧ g1'.ctx = g2'.ctx := by
+  induction cs with
+  | nil =>
+    intro g1 g2 g1' rs hs h
+    simp only [GCtx.run, Outcome.ok.injEq, Prod.mk.injEq] at h ⊢
+    exact ⟨g2, ⟨rfl, h.2⟩, by rw [← h.1]; exact hs⟩
+  | cons c cs ih =>
+    intro g1 g2 g1' rs hs h
+    simp only [GCtx.run] at h ⊢
+    cases h1 : g1.step env bopo c with
+    | ok x =>
+      obtain ⟨ga, r⟩ := x
+      rw [h1] at h
+      simp only at h
+      cases h2 : ga.run env bopo cs with
+      | ok y =>
+        obtain ⟨gb, rs'⟩ := y
+        rw [h2] at h
+        simp only [Outcome.ok.injEq, Prod.mk.injEq] at h
+        obtain ⟨gc, hc1, hcs⟩ := blind_step_sim env bopo hs (hb c (List.mem_cons_self)) h1
+        obtain ⟨gd, hd1, hds⟩ := ih (fun c hc => hb c (List.mem_cons_of_mem _ hc)) ga gc gb rs' hcs h2
+        refine ⟨gd, ?_, by rw [← h.1]; exact hds⟩
+        rw [hc1]; simp only; rw [hd1]; simp only [h.2]
+      | panic p => rw [h2] at h; cases h
+      | outOfFuel => rw [h2] at h; cases h
+    | panic p => rw [h1] at h; cases h
+    | outOfFuel => rw [h1] at h; cases h
+
+/-- **C17 at the C level — getter calls are invisible to the modelled calls.**  Take ANY history of modelled C calls
+    with getter calls (plain, `_static`, enumeration protocol — any of them) interleaved anywhere.  The modelled calls
+    return exactly what they return in the history WITHOUT the getter calls, and the context they leave (editor state,
+    buffers, options, dictionary, selection keys, keyboard) is the same. -/
+theorem getters_do_not_disturb (cs : List GCall) :
+    ∀ (g g' : GCtx D L) (rs : List GRes), g.run env bopo cs = .ok (g', rs) →
+      g.ctx.run env (strip cs) = .ok (g'.ctx, rcsOf rs) := by
+  induction cs with
+  | nil =>
+    intro g g' rs h
+    simp only [GCtx.run, Outcome.ok.injEq, Prod.mk.injEq] at h
+    rw [← h.1, ← h.2]; rfl
+  | cons c cs ih =>
+    intro g g' rs h
+    simp only [GCtx.run] at h
+    cases h1 : g.step env bopo c with
+    | ok x =>
+      obtain ⟨ga, r⟩ := x
+      rw [h1] at h
+      simp only at h
+      cases h2 : ga.run env bopo cs with
+      | ok y =>
+        obtain ⟨gb, rs'⟩ := y
+        rw [h2] at h
+        simp only [Outcome.ok.injEq, Prod.mk.injEq] at h
+        have ih' := ih ga gb rs' h2
+        cases c with
+        | op o =>
+          simp only [GCtx.step] at h1
+          cases ha : g.ctx.apply env o with
+          | ok z =>
+            rw [ha] at h1
+            simp only [Outcome.map, Outcome.ok.injEq, Prod.mk.injEq] at h1
+            rw [← h.1, ← h.2, ← h1.2]
+            simp only [strip, rcsOf, CCtx.run]
+            rw [ha]
+            simp only
+            rw [← h1.1] at ih'
+            simp only at ih'
+            rw [ih']
+          | panic p => rw [ha] at h1; cases h1
+          | outOfFuel => rw [ha] at h1; cases h1
+        | get q =>
+          simp only [GCtx.step] at h1
+          cases hg : g.get env bopo q with
+          | ok z =>
+            obtain ⟨gz, v⟩ := z
+            rw [hg] at h1
+            simp only [Outcome.map, Outcome.ok.injEq, Prod.mk.injEq] at h1
+            rw [← h.1, ← h.2, ← h1.2]
+            simp only [strip, rcsOf]
+            rw [← h1.1, get_keeps_ctx env bopo hg] at ih'
+            exact ih'
+          | panic p => rw [hg] at h1; cases h1
+          | outOfFuel => rw [hg] at h1; cases h1
+      | panic p => rw [h2] at h; cases h
+      | outOfFuel => rw [h2] at h; cases h
+    | panic p => rw [h1] at h; cases h
+    | outOfFuel => rw [h1] at h; cases h
+
+/-- **inserting one getter call (of ANY kind) in front of a history of modelled calls and slot-blind getters changes no
+    result**: every return value and every getter value of the history is what it is without the inserted call, and the
+    final context of the modelled calls is the same. -/
+theorem insert_getter {g gq g1 : GCtx D L} {q : Getter} {v : GVal} (hq : g.get env bopo q = .ok (gq, v))
+    (post : List GCall) (hb : ∀ c ∈ post, GCall.blind c = true) {rs : List GRes}
+    (h : g.run env bopo post = .ok (g1, rs)) :
+    ∃ g2, g.run env bopo (.get q :: post) = .ok (g2, .val v :: rs) ∧ g2.ctx = g1.ctx := by
+  obtain ⟨g2, h2, hc⟩ := blind_run_sim env bopo post hb g gq g1 rs (get_keeps_ctx env bopo hq).symm h
+  refine ⟨g2, ?_, hc.symm⟩
+  simp only [GCtx.run, GCtx.step, hq, Outcome.map, h2]
+
+end Purity
+
 end Chewing.C17CApi
